@@ -117,3 +117,120 @@ def spans(model, info, art):
     finally:
         rem.tracer = orig
     return ("confirmed" if problems else "contradicted"), "; ".join(problems) or "all spans ended once with their own run's outcome"
+
+
+# ------------------------------------------------------------------------------------------------ the T2 obligations (whole call)
+def call_replay(model, info, art):
+    """the counter-example's decision list (plan choices, which close_run fails, schedule, requests) re-played on the real RunEngine by the
+    stepping harness of replay/lifecycle.py, with the recording tracer and with RunBundler.close_run failing where the model's bundler did;
+    the clauses of contracts/C42.py (C42Mon) are then evaluated on what the real engine did with its spans"""
+    import bluesky.bundlers as bb
+    from . import lifecycle as lc
+    lc.MESSAGES.setdefault("close_run_fail", lambda: Msg("close_run", exit_status="fail", reason="gave up"))
+    lc.MESSAGES.setdefault("close_run_b_abort", lambda: Msg("close_run", run="b", exit_status="abort", reason="not needed"))
+    fake = FakeTracer()
+    rem.tracer = fake
+    runs = []          # one record per RunBundler the engine created: {bundler, spans, stop, attempt}
+    opens = []         # one record per open_run message: (accepted run record | None, spans started while it was processed)
+    orig_open, orig_close, orig_bopen, orig_on_msg = rem.RunEngine._open_run, bb.RunBundler.close_run, bb.RunBundler.open_run, lc.Controller.on_msg
+    open_may_fail = any(lab == "open_run outcome" for lab, _ in (art.get("decisions") or []))
+    early = []
+
+    def on_msg(ctl, msg):
+        # (RE.msg_hook: the plan has just yielded `msg`)
+        for i, r in enumerate(runs):
+            if r["bundler"].run_is_open and any(s.ended for s in r["spans"]):
+                early.append(f"run #{i + 1} is still open when the plan yields {msg.command!r}, its span was already ended "
+                             f"({[(s.ended, s.attrs.get('exit_status')) for s in r['spans']]})")
+        return orig_on_msg(ctl, msg)
+
+    async def bundler_open(self, msg):
+        d = lc._CTL["ctl"].next_decision(["open_run outcome"]) if open_may_fail else None
+        c = d[1] if d is not None else "ok"
+        if c.startswith("before"):
+            raise RuntimeError("the start document was not delivered")
+        ret = await orig_bopen(self, msg)
+        if c.startswith("after"):
+            raise RuntimeError("the start document was not delivered")
+        return ret
+
+    def rec_of(b):
+        for r in runs:
+            if r["bundler"] is b:
+                return r
+        r = {"bundler": b, "spans": [], "stop": None, "attempt": None}
+        runs.append(r)
+        return r
+
+    async def open_run(self, msg):
+        n0 = len(fake.spans)
+        before = list(self._run_bundlers.values())
+        try:
+            return await orig_open(self, msg)
+        finally:
+            new_b = [b for b in self._run_bundlers.values() if not any(b is x for x in before)]
+            new_sp = [s for s in fake.spans[n0:] if s.name.endswith(" run")]
+            r = None
+            if new_b:
+                r = rec_of(new_b[0])
+                r["spans"] = new_sp
+            # (the clause about a rejected open_run is evaluated the moment the rejection is handed back, as in the model)
+            opens.append((r, new_sp, sum(1 for s in new_sp if s.ended < 1)))
+
+    async def close_run(self, msg):
+        status = msg.kwargs.get("exit_status", "success") or "success"
+        r = rec_of(self)
+        if self.run_is_open:
+            d = lc._CTL["ctl"].next_decision(["close_run outcome"])
+            r["attempt"] = status
+            if d is not None and d[1] == "raise":
+                raise RuntimeError("the stop document was not delivered")
+        ret = await orig_close(self, msg)
+        r["attempt"] = r["stop"] = status
+        return ret
+    rem.RunEngine._open_run = open_run
+    bb.RunBundler.close_run, bb.RunBundler.open_run = close_run, bundler_open
+    lc.Controller.on_msg = on_msg
+    try:
+        res = lc.run_native(art.get("decisions") or [], (info.get("scenario") or {}).get("msgs") or list(lc.MESSAGES))
+        RE = lc._CTL["ctl"].RE
+        left = len(RE._run_tracing_spans)
+    finally:
+        rem.RunEngine._open_run, bb.RunBundler.close_run, bb.RunBundler.open_run = orig_open, orig_close, orig_bopen
+        lc.Controller.on_msg = orig_on_msg
+    tag = art.get("obligation", "").split("#", 1)[-1]
+    idle = bool(res["calls"]) and res["calls"][-1]["state"] == "idle"
+    bad = []
+    if tag.startswith("ensures[every run opened during the call got exactly one span"):
+        for r, sps, unended in opens:
+            if r is not None and len(sps) != 1:
+                bad.append(f"an accepted open_run started {len(sps)} spans")
+            if r is None and unended:
+                bad.append(f"a rejected open_run left {unended} span(s) un-ended")
+    elif tag.startswith("ensures[once the engine is idle every opened run's span"):
+        if idle:
+            for i, r in enumerate(runs):
+                want = r["stop"] if r["stop"] is not None else r["attempt"]
+                for s in r["spans"]:
+                    if s.ended != 1:
+                        bad.append(f"run #{i + 1}: span ended {s.ended} times")
+                    elif want is not None and s.attrs.get("exit_status") != want:
+                        bad.append(f"run #{i + 1}: span carries exit_status {s.attrs.get('exit_status')!r}, the run ended as {want!r}")
+    elif tag.startswith("ensures[once the engine is idle no span is left registered"):
+        if idle:
+            if left:
+                bad.append(f"{left} span(s) left on RE._run_tracing_spans")
+            for r, sps, _ in opens:
+                if r is None and any(s.ended < 1 for s in sps):
+                    bad.append("a span started by a rejected open_run was never ended")
+    elif tag.startswith("ensures[whenever the plan yields a message the span of every run that is still open"):
+        bad.extend(early[:3])
+    else:
+        return "not-constructible", f"no native oracle for {tag!r}"
+    summary = "; ".join(f"{c['call']} -> {c['outcome']}{'(' + type(c['exc']).__name__ + ')' if c['exc'] is not None else ''} state={c['state']}" for c in res["calls"])
+    spans = [(s.ended, s.attrs.get("exit_status")) for s in fake.spans if s.name.endswith(" run")]
+    if bad:
+        return "confirmed", "; ".join(bad) + f"  [native run: {summary}; run spans (ended, exit_status): {spans}; diverged: {res['diverged']}]"
+    if res["diverged"]:
+        return "not-constructible", f"native run diverged from the model's schedule ({res['diverged']}) and did not violate the obligation: {summary}"
+    return "contradicted", f"native run followed the schedule and satisfied the obligation: {summary}; run spans (ended, exit_status): {spans}"
